@@ -89,7 +89,7 @@ var natOps = []string{
 
 func TestNumctNat(t *testing.T) {
 	const test = "NumctNat"
-	vlib.Check(t, 16000, func(t *rapid.T) {
+	vlib.Check(t, 24000, func(t *rapid.T) {
 		op := rapid.SampledFrom(natOps).Draw(t, "op")
 		big4k, mid := maxBitsCheap(), maxBitsExpensive()
 		var sizeC, capC, aliasC, extra string
